@@ -440,6 +440,11 @@ def sortNat (l : List Nat) : List Nat := l.foldr insertSorted []
 
 def maxId (st : State) : Nat := st.blocks.foldl (fun a e => maxOf a e.b.id) 0
 
+/-- every (id, hash) held by the by-height index, on-chain or not, sorted -/
+def ringDump (st : State) : List (Nat × Nat) :=
+  (List.range (maxId st + 3)).flatMap fun i =>
+    (sortNat (((getItem st.ring (slotOf st i)).ents.filter (·.2 == i)).map (·.1))).map fun h => (i, h)
+
 def lcDump (st : State) : List (Nat × Nat) :=
   (List.range (maxId st + 3)).filterMap fun i => (lcHashAt st i).map fun h => (i, h)
 
